@@ -32,6 +32,9 @@ TYPE_NORMALISE = [
     (r'std::basic_streambuf<char(, std::char_traits<char> ?)?>', 'std::basic_streambuf<char>'),
     (r'std::vector<(.*?), std::allocator<\1> ?>', r'std::vector<\1>'),
     (r'\bclass \b|\bstruct \b|\benum \b', ''),
+    # clang elides defaulted template arguments (template <typename CharT = char>)
+    (r'\b(ArrayStreamBuf|StreamBuf|RawStreamBuf)<>', r'\1<char>'),
+    (r'::Base\b', '::Base'),
 ]
 
 
@@ -50,6 +53,9 @@ def strip_ptr(t):
 
 class Lower:
     def __init__(self, ast, unit):
+        for rule in getattr(unit, 'NORMALISE', []):
+            if rule not in TYPE_NORMALISE:
+                TYPE_NORMALISE.append(rule)
         self.ast = ast
         self.u = unit
         self.typemap = dict(unit.TYPES)
@@ -73,6 +79,9 @@ class Lower:
         self.ghost = getattr(unit, 'GHOST', {})
         self.devirt = getattr(unit, 'DEVIRT', {})
         self.loops_seen = {}
+        self.need_defaults = set(getattr(unit, 'DEFAULTS', []))
+        self.dflt_names = {}
+        self.dflt_text = {}
 
     # ------------------------------------------------------------------ names
     @staticmethod
@@ -342,7 +351,13 @@ class Lower:
         if key in self.stubs:
             return self.stubs[key]
         # constexpr scalar constants are emitted as their initialiser
-        if d.get('constexpr') or 'const' in self.qt(d):
+        scalar = False
+        try:
+            ct = self.ctype(d['type'])
+            scalar = not ct.startswith('struct') or ct.endswith('*')
+        except Abort:
+            pass
+        if scalar and (d.get('constexpr') or 'const' in self.qt(d)):
             ins = self.inner(d)
             if ins:
                 try:
@@ -439,6 +454,9 @@ class Lower:
             if len(self.pre) != mark:
                 raise Abort('may-throw call on the right of %s in %s' % (op, self.cur_fn))
             return '(%s %s %s)' % (ea, op, eb)
+        if op == '-' and self.qt(a).strip().endswith('*') and self.qt(b).strip().endswith('*'):
+            # C++ defines p - p (also nullptr - nullptr) as 0; CBMC's C semantics flags null operands
+            return 'VS_PTRDIFF(%s, %s)' % (self.E(a), self.E(b))
         if op == '=' or n.get('kind') == 'CompoundAssignOperator':
             eb = self.E(b)          # C++17: the right operand of an assignment is sequenced first
             return '(%s %s %s)' % (self.E(a), op, eb)
@@ -561,10 +579,28 @@ class Lower:
         return None
 
     def param_types_from_sig(self, sig):
-        m = re.search(r'\((.*)\)', sig)
-        if not m:
+        # parameter list = the first parenthesis group at angle-bracket depth 0
+        ad, start = 0, -1
+        for i, ch in enumerate(sig):
+            if ch == '<':
+                ad += 1
+            elif ch == '>':
+                ad -= 1
+            elif ch == '(' and ad == 0:
+                start = i
+                break
+        if start < 0:
             return []
-        s = m.group(1)
+        d, end = 0, -1
+        for i in range(start, len(sig)):
+            if sig[i] == '(':
+                d += 1
+            elif sig[i] == ')':
+                d -= 1
+                if d == 0:
+                    end = i
+                    break
+        s = sig[start + 1:end] if end > 0 else sig[start + 1:]
         out, d, cur = [], 0, ''
         for ch in s:
             if ch in '<(':
@@ -598,7 +634,12 @@ class Lower:
             else:
                 t = 'vs_t%d' % self.tmp
                 self.tmp += 1
-                self.pre.append('%s %s = %s;' % (rt, t, call))
+                if self.cur_spec.get('hoist_all') and self.loop_depth:
+                    self.hoisted.append('%s %s;' % (rt, t))
+                    self.hoisted_names.append(t)
+                    self.pre.append('%s = %s;' % (t, call))
+                else:
+                    self.pre.append('%s %s = %s;' % (rt, t, call))
                 res = t
             for code in after:
                 self.pre.append(code)
@@ -658,7 +699,14 @@ class Lower:
             d = self.inner(d)[0]
         r = d['referencedDecl']
         tgt = self.ast.byid.get(r['id'])
-        name = self.callee_name(r['id'], r)
+        try:
+            name = self.callee_name(r['id'], r)
+        except Abort:
+            label = self.ast.qname(tgt) if tgt is not None else r.get('name', '?')
+            x = self.default_call(label, n, ins[1:], sig=self.qt(tgt or r))
+            if x is not None:
+                return x
+            raise
         if isinstance(name, dict):
             return self.stub_expand(name, None, [self.E(a) for a in ins[1:]], n)
         argl = self.args(tgt, ins[1:], self.param_types_from_sig(self.qt(r)))
@@ -671,11 +719,91 @@ class Lower:
     def stub_expand(self, st, objp, argl, n):
         """stub given as {'expr': 'template with $this $0 $1'}"""
         x = st['expr']
+        if st.get('literal_only') and not all(a.strip().startswith('"') for a in argl):
+            raise Abort('stub %r is only valid for string literals (in %s)' % (x, self.cur_fn))
         if objp is not None:
             x = x.replace('$this', objp)
         for i, a in enumerate(argl):
             x = x.replace('$%d' % i, a)
         return x
+
+    def default_call(self, label, n, argnodes, objnode=None, sig=''):
+        """DESIGN.md 2.2 default rule: an unmodelled library call returns a nondeterministic value, havocs every object it
+        receives by non-const reference/pointer and may raise; Pistache callees only if the unit lists them as assumed"""
+        if not getattr(self.u, 'DEFAULT_RULE', False):
+            return None
+        if label.startswith('Pistache') and not any(label.startswith(p) for p in getattr(self.u, 'ASSUME_PISTACHE', [])):
+            return None
+        params, argl, body = [], [], []
+        nodes = ([('this', objnode)] if objnode is not None else []) + [('a', a) for a in argnodes]
+        for i, (kind, a) in enumerate(nodes):
+            if a.get('kind') == 'CXXDefaultArgExpr':
+                continue
+            T = a.get('type') or {}
+            qt = T.get('qualType', '')
+            ct = self.ctype(T)
+            x = self.E(a)
+            isconst = bool(re.search(r'\bconst\b', qt.split('*')[0]))
+            if kind == 'this' and re.search(r'\)\s*const\b', sig or ''):
+                isconst = True
+            pn = 'p%d' % i
+            if ct.startswith('struct') and not ct.endswith('*'):
+                if a.get('valueCategory') in ('lvalue', 'xvalue'):
+                    if re.match(r'^\(?\w+\(.*\)\)?$', x) and not x.startswith('(*') or not self.is_lvalue_text(x):
+                        t = 'vs_t%d' % self.tmp        # materialise the temporary so that its address can be passed
+                        self.tmp += 1
+                        if self.cur_spec.get('hoist_all') and self.loop_depth:
+                            self.hoisted.append('%s %s;' % (ct, t))
+                            self.hoisted_names.append(t)
+                            self.pre.append('%s = %s;' % (t, x))
+                        else:
+                            self.pre.append('%s %s = %s;' % (ct, t, x))
+                        x = t
+                    params.append('%s *%s' % (ct, pn))
+                    argl.append(self.addr(x))
+                    if not isconst:
+                        body.append('{ %s t; *%s = t; }' % (ct, pn))
+                else:
+                    params.append('%s %s' % (ct, pn))
+                    argl.append(x)
+            else:
+                params.append('%s %s' % (ct, pn))
+                argl.append(x)
+                if ct.endswith('*') and not isconst and ct.startswith(('struct vs_opaque', 'struct vs_astr')) and ct.count('*') == 1:
+                    body.append('{ %s t; *%s = t; }' % (ct[:-1].strip(), pn))
+        isref = n.get('valueCategory') == 'lvalue'
+        rt = self.ctype(n['type']) if (n.get('type') or {}).get('qualType', 'void') != 'void' else 'void'
+        if isref and rt != 'void':
+            rt += ' *'
+        key = (label, tuple(params), rt)
+        name = self.dflt_names.get(key)
+        if name is None:
+            name = 'vs_dflt_%s_%d' % (self.mangle(label)[-48:], len(self.dflt_names))
+            self.dflt_names[key] = name
+            nothrow = 'noexcept' in sig and 'noexcept(false)' not in sig
+            text = 'static %s %s(%s)\n{\n' % (rt, name, ', '.join(params) or 'void')
+            for b in body:
+                text += '    ' + b + '\n'
+            if not nothrow:
+                text += '    { _Bool th; if (th) { vs_exc = VS_EXC_OTHER_STD; } }\n'
+            if rt.endswith('*') and isref:
+                text += '    static %s obj; { %s t; obj = t; }\n    return &obj;\n' % (rt[:-1].strip(), rt[:-1].strip())
+            elif rt != 'void':
+                text += '    %s r;\n    return r;\n' % rt
+            text += '}\n'
+            self.dflt_text[name] = text
+            if not nothrow:
+                self.throwing.add(name)
+                self.may_throw.add(name)
+        self.assumptions.add('%s: result and effects unconstrained (default rule)' % label)
+        x = self.emit_call(name, argl, n if rt != 'void' else None, ref=isref)
+        if isref and rt != 'void':
+            x = '(*%s)' % x
+        return x
+
+    @staticmethod
+    def is_lvalue_text(x):
+        return not re.match(r'^\s*\(*\s*\(struct', x) and '{' not in x
 
     def member_stub_key(self, obj, name):
         return '%s::%s' % (self.objtype(obj), name)
@@ -694,10 +822,11 @@ class Lower:
         tgt = self.ast.byid.get(rid)
         name = None
         if tgt is not None:
-            if tgt.get('virtual') or self.is_virtual(tgt):
+            if self.is_virtual(tgt) and '::' not in self.src_text(me).split('->')[-1].split('.')[-1]:
                 dv = self.devirt.get((self.cur_fn, me['name']))
-                if dv:
-                    name = dv
+                if not dv:
+                    raise Abort('virtual call to %s in %s needs a DEVIRT entry (dynamic type fixed by construction) ' % (me['name'], self.cur_fn))
+                name = dv
             c = self.ast.canon(rid)
             if name is None and c in self.fn_by_canon:
                 name = self.fn_by_canon[c]
@@ -712,6 +841,10 @@ class Lower:
             rkey = key + '->' + self.objtype(n)
             name = self.stubs.get(key + '|' + self.qt(me)) or self.stubs.get(rkey) or self.stubs.get(key)
             if name is None:
+                label = self.ast.qname(tgt) if tgt is not None else key
+                x = self.default_call(label, n, ins[1:], objnode=obj, sig=self.qt(tgt) if tgt is not None else '')
+                if x is not None:
+                    return x
                 raise Abort('member call %s [%s] (or key %r): neither lowered nor stubbed (in %s, line %s)' % (key, self.qt(me), rkey, self.cur_fn, Ast.where(n)[1]))
         ptypes = self.param_types_from_sig(self.qt(tgt) if tgt else self.qt(me))
         if isinstance(name, dict):
@@ -724,8 +857,49 @@ class Lower:
             x = '(*%s)' % x
         return x
 
-    def is_virtual(self, d):
-        return bool(d.get('virtual'))
+    def all_records(self):
+        idx = getattr(self, '_allrec', None)
+        if idx is None:
+            idx = self._allrec = {}
+            for i, n in self.ast.byid.items():
+                if n.get('kind') in ('CXXRecordDecl', 'ClassTemplateSpecializationDecl') and n.get('completeDefinition'):
+                    idx.setdefault(self.ast.qname(n), n)
+        return idx
+
+    def is_virtual(self, d, cls=None, depth=0):
+        """declared virtual, or overrides a virtual member of a (transitive) base class"""
+        if d is not None and d.get('virtual'):
+            return True
+        if depth > 8:
+            return False
+        rec = cls if cls is not None else (self.ast.ctx_parent(d) if d is not None else None)
+        if rec is None:
+            return False
+        name = d.get('name') if d is not None else None
+        idx = self.all_records()
+        for b in rec.get('bases', []):
+            bt = norm_type(b['type'].get('desugaredQualType') or b['type']['qualType']).split('<')[0]
+            cands = [r for q, r in idx.items() if q == bt or q.endswith('::' + bt)]
+            for br in cands:
+                for m in self.inner(br):
+                    if m.get('kind') == 'CXXMethodDecl' and m.get('name') == name and m.get('virtual'):
+                        return True
+                if self.is_virtual(d, br, depth + 1):
+                    return True
+        return False
+
+    def src_text(self, n):
+        r = n.get('range') or {}
+        b, e = r.get('begin') or {}, r.get('end') or {}
+        if 'expansionLoc' in b:
+            b = b['expansionLoc']
+        if 'expansionLoc' in e:
+            e = e['expansionLoc']
+        try:
+            data = open(b['file'], 'rb').read()
+            return data[b['offset']:e['offset'] + e.get('tokLen', 0)].decode('utf-8', 'replace')
+        except Exception:
+            return ''
 
     def e_CXXOperatorCallExpr(self, n):
         ins = self.inner(n)
@@ -755,6 +929,18 @@ class Lower:
                 if isref:
                     x = '(*%s)' % x
                 return x
+        if opname == 'operator=' and len(ins) == 3:
+            lrec = self.find_record(self.objtype(ins[1]))
+            if lrec:
+                core = ins[2]
+                while core.get('kind') in ('ExprWithCleanups', 'MaterializeTemporaryExpr', 'CXXBindTemporaryExpr', 'ImplicitCastExpr'):
+                    core = self.inner(core)[0]
+                lhs = self.E(ins[1])
+                if core.get('kind') in ('CXXTemporaryObjectExpr', 'CXXConstructExpr') and not self.inner(core):
+                    # value-initialised temporary assigned through the implicit operator=: member-wise defaults from the class layout
+                    self.need_defaults.add(lrec)
+                    return '(*vs_default_%s(%s))' % (self.mangle(lrec), self.addr(lhs))
+                return '(%s = %s)' % (lhs, self.E(ins[2]))
         # library operator: key on operator name and the (normalised) operand types
         ots = [self.objtype(a) for a in ins[1:]]
         for key in ('%s|%s' % (opname, ','.join(ots)), '%s|%s' % (opname, ots[0])):
@@ -779,6 +965,9 @@ class Lower:
                 if isref:
                     x = '(*%s)' % x
                 return x
+        x = self.default_call((self.ast.qname(tgt) if tgt is not None else 'std::' + opname) + '|' + ots[0], n, ins[1:], sig=self.qt(r))
+        if x is not None:
+            return x
         raise Abort('operator call %s on (%s) [%s] has no stub (in %s, line %s)' % (opname, ', '.join(ots), self.qt(r), self.cur_fn, Ast.where(n)[1]))
 
     def e_CXXConstructExpr(self, n):
@@ -806,8 +995,12 @@ class Lower:
                 raise Abort('temporary of guarded type %s in %s' % (ct, self.cur_fn))
             return t
         key = 'ctor:%s|%s' % (rec, norm_type(ctort))
-        st = self.stubs.get(key)
+        nargs = len([a for a in ins if a.get('kind') != 'CXXDefaultArgExpr'])
+        st = self.stubs.get(key) or self.stubs.get('ctor:%s/%d' % (rec, nargs))
         if st is None:
+            x = self.default_call('ctor:' + rec, n, ins, sig=ctort)
+            if x is not None:
+                return x
             raise Abort('constructor stub missing: %r (in %s, line %s)' % (key, self.cur_fn, Ast.where(n)[1]))
         if isinstance(st, dict):
             return self.stub_expand(st, None, [self.E(a) for a in ins], n)
@@ -1124,7 +1317,7 @@ class Lower:
             core = self.inner(core)[0]
         if core is not None and core.get('kind') == 'LambdaExpr':
             return self.lambda_decl(v, core, ind)
-        hoist = nm in self.cur_spec.get('hoist', [])
+        hoist = nm in self.cur_spec.get('hoist', []) or (self.cur_spec.get('hoist_all') and bool(self.loop_depth))
         m = re.match(r'^(.*)\[(\d+)\]$', norm_type(qt))
         if m:
             ct = self.ctype(m.group(1))
@@ -1137,6 +1330,7 @@ class Lower:
         declt = '' if hoist else ct + ' '
         if hoist:
             self.hoisted.append('%s %s;' % (ct, nm))
+            self.hoisted_names.append(nm)
         if core is not None and core.get('kind') in ('CXXConstructExpr', 'CXXTemporaryObjectExpr'):
             rec = norm_type(core['type'].get('desugaredQualType') or core['type']['qualType'])
             r = self.find_record(rec)
@@ -1345,6 +1539,7 @@ class Lower:
         self.hoisted = []
         self.after_decl_used = set()
         self.ghost_used = set()
+        self.hoisted_names = []
         ret, rref, sig = self.signature(d, cname)
         self.cur_ret = ret
         self.ret_is_ref = rref
@@ -1374,6 +1569,7 @@ class Lower:
             body = body[:idx] + ('    ' + eg + '\n' if eg else '') + '    VS_REACH(%s);\n' % self.reach_label('end') + body[idx:]
         if pre or self.hoisted:
             body = '{\n' + ''.join('    ' + h + '\n' for h in self.hoisted) + pre + body[2:]
+        body = body.replace('$HOISTED', ', '.join(self.hoisted_names) if self.hoisted_names else 'vs_exc')
         self.calls[cname] = self.cur_calls
         for g in spec.get('ghost', []):
             if g not in self.ghost_used:
@@ -1432,6 +1628,66 @@ class Lower:
         return ('    ' + call + ';\n') if call != '((void)0)' else ''
 
 
+def gen_defaults(L, recq, done, out):
+    """vs_default_<R>(p): the state of a value-initialised R, generated from the class layout (bases first, then every
+    FieldDecl with its in-class initialiser or zero); vs_is_default_<R>(p): the matching predicate"""
+    if recq in done:
+        return
+    done.add(recq)
+    rec = L.records[recq]
+    cn = L.rec_cname[recq]
+    m = L.mangle(recq)
+    sets, tests = [], []
+    L.cur_fn = 'vs_default_' + m
+    L.pre = []
+    L.captures = {}
+    L.rename = {}
+    L.cur_calls = set()
+    L.cur_spec = {}
+    eqs = getattr(L.u, 'DEFAULT_EQ', {})
+    for b in rec.get('bases', []):
+        bt = norm_type(b['type'].get('desugaredQualType') or b['type']['qualType'])
+        br = L.find_record(bt)
+        fld = 'vs_base_' + L.mangle(bt.split('<')[0].split('::')[-1])
+        if br:
+            gen_defaults(L, br, done, out)
+            sets.append('vs_default_%s(&p->%s);' % (L.mangle(br), fld))
+            tests.append('vs_is_default_%s(&p->%s)' % (L.mangle(br), fld))
+        else:
+            ct = L.ctype(bt)
+            if ct not in eqs:
+                raise Abort('defaults of %s: base %s (%s) has no DEFAULT_EQ entry' % (recq, bt, ct))
+            sets.append(eqs[ct][0].replace('$', 'p->' + fld))
+            tests.append(eqs[ct][1].replace('$', 'p->' + fld))
+    for f in L.inner(rec):
+        if f.get('kind') != 'FieldDecl':
+            continue
+        nm = f['name']
+        ct = L.ctype(f['type'])
+        ft = norm_type(f['type'].get('desugaredQualType') or f['type']['qualType'])
+        fr = L.find_record(ft) if not ft.endswith(('*', '&')) else None
+        init = [c for c in L.inner(f)]
+        if fr:
+            gen_defaults(L, fr, done, out)
+            sets.append('vs_default_%s(&p->%s);' % (L.mangle(fr), nm))
+            tests.append('vs_is_default_%s(&p->%s)' % (L.mangle(fr), nm))
+        elif ct in eqs:
+            sets.append(eqs[ct][0].replace('$', 'p->' + nm))
+            tests.append(eqs[ct][1].replace('$', 'p->' + nm))
+        elif ct.startswith('struct'):
+            raise Abort('defaults of %s: field %s of type %s has no DEFAULT_EQ entry' % (recq, nm, ct))
+        else:
+            v = '0'
+            if init:
+                v = L.E(init[-1])
+                if L.pre:
+                    raise Abort('defaults of %s: initialiser of %s has side effects' % (recq, nm))
+            sets.append('p->%s = %s;' % (nm, v))
+            tests.append('p->%s == %s' % (nm, v))
+    out.append('static inline %s *vs_default_%s(%s *p)\n{\n    %s\n    return p;\n}' % (cn, m, cn, '\n    '.join(sets)))
+    out.append('static inline bool vs_is_default_%s(const %s *p)\n{\n    return %s;\n}' % (m, cn, '\n        && '.join(tests) or '1'))
+
+
 def contract_lines(text):
     """short contract syntax -> CBMC clauses.  One clause per line:
          requires E | ensures E | assigns T,... | invariant E | decreases E | frees ...
@@ -1487,7 +1743,8 @@ def lower_unit(ast, unit):
     for q in unit.RECORDS:
         found = None
         for i, n in ast.byid.items():
-            if n.get('kind') in ('CXXRecordDecl', 'ClassTemplateSpecializationDecl') and n.get('completeDefinition') and not ast.in_template_pattern(n):
+            if n.get('kind') in ('CXXRecordDecl', 'ClassTemplateSpecializationDecl') and n.get('completeDefinition') and \
+                    (n.get('kind') == 'ClassTemplateSpecializationDecl' or not ast.in_template_pattern(n)):
                 nq = ast.qname(n) if n.get('kind') == 'CXXRecordDecl' else L.spec_name(n)
                 if nq == q:
                     found = n
@@ -1548,6 +1805,10 @@ def lower_unit(ast, unit):
 
 def emit_c(L, funs, unit, harnesses):
     out = []
+    text_defaults = []
+    ddone = set()
+    for rq in sorted(L.need_defaults):
+        gen_defaults(L, rq, ddone, text_defaults)
     out.append('/* GENERATED on every run from the clang AST of /repo -- do not edit */')
     out.append(unit.PRELUDE)
     for q in unit.RECORDS:
@@ -1565,7 +1826,28 @@ def emit_c(L, funs, unit, harnesses):
                 break
         if not found:
             raise Abort('enum %s not found' % eq)
-    text_records = [L.record(q) for q in unit.RECORDS]
+    order, seen = [], set()
+
+    def visit(q):
+        if q in seen:
+            return
+        seen.add(q)
+        rec = L.records[q]
+        for b in rec.get('bases', []):
+            br = L.find_record(norm_type(b['type'].get('desugaredQualType') or b['type']['qualType']))
+            if br:
+                visit(br)
+        for f in L.inner(rec):
+            if f.get('kind') == 'FieldDecl':
+                ft = norm_type(f['type'].get('desugaredQualType') or f['type']['qualType'])
+                if not ft.endswith(('*', '&')):
+                    fr = L.find_record(re.sub(r'\[\d*\]$', '', ft))
+                    if fr:
+                        visit(fr)
+        order.append(q)
+    for q in unit.RECORDS:
+        visit(q)
+    text_records = [L.record(q) for q in order]
     bodies = []
     if L.enum_consts:
         out.append('enum {')
@@ -1580,9 +1862,12 @@ def emit_c(L, funs, unit, harnesses):
     if mid:
         out.append(mid)
     out.extend(text_records)
+    out.extend(text_defaults)
     post = getattr(unit, 'PRELUDE_AFTER_RECORDS', '')
     if post:
         out.append(post)
+    for name, text in L.dflt_text.items():
+        out.append(text)
     for f in funs:
         for (st, proto, contract, body, fn) in f['closures']:
             out.append(st)
